@@ -20,7 +20,7 @@ SPEC = {
     "build_comp": "calcremote",
     "props": ["props/C48.v"],
     "corr": ["corr/CalcRemote_corr.v"],
-    "comps": [{"comp": "calcremote", "n_quick": 600, "n_thorough": 40000}],
+    "comps": [{"comp": "calcremote", "n_quick": 400, "n_thorough": 40000}],
     "trusted": ["model/CalcRemote.v new_calculated_remote/apply_v4/apply_v6/add_calculated are hand-written mirrors of calculated_remote.go and lighthouse.go addCalculatedRemotes (tied by correspondence)",
                 "bart.Table.Lookup is longest-prefix match over the inserted prefixes; netip.ParsePrefix yields prefix lengths within the address width"],
     "assumptions": ["configured prefixes are valid (prefix length <= address width), as netip.ParsePrefix guarantees",
